@@ -284,6 +284,10 @@ Definition word_ok (namesf : bytes -> outcome (list bytes)) (sem : bytes -> list
    (forall t, sw_type w = Some t -> memb t loaded = true) /\
    exists ns, namesf (sw_hosts w) = Ok ns /\ forall x, In x ns <-> In x (sem (sw_hosts w))).
 
+Lemma names_target_of sem w x :
+  names_target x (aword_of sem w) = sw_has_spec w && existsb (same_name x) (sem (sw_hosts w)).
+Proof. reflexivity. Qed.
+
 Lemma process_words_find namesf sem loaded ws :
   Forall (word_ok namesf sem loaded) ws -> forall r,
   exists r', process_words namesf loaded r (map render_sword ws) = Ok r' /\
@@ -309,18 +313,14 @@ Proof.
       destruct (IH (register_names r ns (sw_type w, sw_user w))) as (r' & Hr' & Hf).
       exists r'. split; [exact Hr'|]. intros x. rewrite Hf, register_names_find.
       destruct (reg_find r x); auto.
-      cbn [find]. unfold names_target at 2. cbn [aword_of a_has_spec a_type a_user a_names].
-      change (match sw_type w with Some _ => true | None => match sw_user w with Some _ => true | None => false end end)
-        with (sw_has_spec w). rewrite Es. cbn [andb].
+      cbn [find]. rewrite names_target_of, Es. cbn [andb a_type a_user aword_of].
       destruct (memb x ns) eqn:Em.
       * apply memb_In, Hmem, same_name_In in Em. now rewrite Em.
       * replace (existsb (same_name x) (sem (sw_hosts w))) with false; auto.
         symmetry. apply Bool.not_true_is_false. intro H. apply same_name_In, Hmem, memb_In in H. congruence.
     + destruct (IH r) as (r' & Hr' & Hf). exists r'. split; [exact Hr'|]. intros x. rewrite Hf.
       destruct (reg_find r x); auto.
-      cbn [find]. unfold names_target at 2. cbn [aword_of a_has_spec a_type a_user a_names].
-      change (match sw_type w with Some _ => true | None => match sw_user w with Some _ => true | None => false end end)
-        with (sw_has_spec w). rewrite Es. reflexivity.
+      cbn [find]. rewrite names_target_of, Es. reflexivity.
 Qed.
 
 (* transport and user used for ANY host name after ANY list of words = the specification *)
@@ -426,4 +426,147 @@ Theorem assign_with_spec namesf sem rank_list loaded st ws targets dt :
 Proof.
   intros Hok Hd. unfold assign_with. destruct (connect_after_words _ _ _ _ Hok) as (r & Hr & Hc).
   rewrite Hr, Hd. cbn [bind]. f_equal. unfold assigned. apply map_ext. intros hn. now rewrite Hc.
+Qed.
+
+(* ====================================================================== *)
+(* 5. Words whose host part is a host expression (C01's syntax trees)      *)
+(* ====================================================================== *)
+
+(* the expansion of a host expression as the hostlist model computes it (= denote, by C01) *)
+Definition sem_targets (hosts : bytes) : list bytes :=
+  match targets hosts with Ok l => l | _ => [] end.
+
+Lemma sem_targets_render e : expr_wf e -> sem_targets (render e) = denote e.
+Proof. intros H. unfold sem_targets. now rewrite C01_expansion. Qed.
+
+(* the names the registry is keyed by: the full two-pass expansion, last name first *)
+Lemma reg_names_render e : expr_wf e -> reg_names (render e) = Ok (rev (denote e)).
+Proof.
+  intros He. unfold reg_names, create.
+  destruct (create_loop_render e (S (length (render e))) hl_empty He hl_empty_ok) as (h1 & Hc & Hok1 & Hx1).
+  { pose proof (render_length e He). lia. }
+  rewrite Hc. cbn [bind]. f_equal. unfold pop_all. f_equal.
+  change (expand (ranges hl_empty)) with (@nil bytes) in Hx1. cbn [app] in Hx1.
+  rewrite (shift_all_expand (ranges h1)) by exact Hok1. rewrite Hx1.
+  destruct (expr_pass2 e He) as (outs & Hn & Eo).
+  destruct (reexpand_ext _ _ Hn hl_empty hl_empty_ok) as [Hok2 Hx2].
+  change (expand (ranges hl_empty)) with (@nil bytes) in Hx2. cbn [app] in Hx2.
+  unfold reexpand. rewrite shift_all_expand by exact Hok2. rewrite Hx2. exact Eo.
+Qed.
+
+(* before the fix: the names of the first bracket pass only *)
+Lemma reg_names0_render e : expr_wf e -> reg_names0 (render e) = Ok (rev (pass1s e)).
+Proof.
+  intros He. unfold reg_names0, create.
+  destruct (create_loop_render e (S (length (render e))) hl_empty He hl_empty_ok) as (h1 & Hc & Hok1 & Hx1).
+  { pose proof (render_length e He). lia. }
+  rewrite Hc. cbn [bind]. f_equal. unfold pop_all. f_equal.
+  change (expand (ranges hl_empty)) with (@nil bytes) in Hx1. cbn [app] in Hx1.
+  rewrite (shift_all_expand (ranges h1)) by exact Hok1. exact Hx1.
+Qed.
+
+Definition one_bracket (e : expr) : Prop :=
+  Forall (fun ws => match fst ws with WBr2 _ _ _ _ _ => False | _ => True end) e.
+
+Lemma pass1s_one_bracket e : one_bracket e -> pass1s e = denote e.
+Proof.
+  unfold pass1s, denote. induction 1 as [|[w s] e Hw _ IH]; cbn [flat_map fst]; auto.
+  rewrite IH. f_equal. destruct w; cbn in Hw; [reflexivity|reflexivity|contradiction].
+Qed.
+
+(* a -w word: optional transport, optional user, host expression *)
+Definition eword := (option bytes * option bytes * expr)%type.
+Definition eword_sword (w : eword) : sword := mksw (fst (fst w)) (snd (fst w)) (render (snd w)).
+Definition eword_text (w : eword) : bytes := render_sword (eword_sword w).
+Definition eword_mean (w : eword) : aword := mkaw (fst (fst w)) (snd (fst w)) (denote (snd w)).
+
+(* the words C09 quantifies over: type and user free of ':' and '@', a well-formed host expression
+   (C01's domain) whose text is free of ':' and '@', a type that names a loaded module *)
+Definition eword_ok (loaded : list bytes) (w : eword) : Prop :=
+  ofield_ok (fst (fst w)) /\ ofield_ok (snd (fst w)) /\ field_ok (render (snd w)) /\ expr_wf (snd w) /\
+  (forall t, fst (fst w) = Some t -> In t loaded).
+
+Lemma eword_word_ok loaded w : eword_ok loaded w -> word_ok reg_names sem_targets loaded (eword_sword w).
+Proof.
+  destruct w as [[t u] e]. unfold eword_ok, word_ok, sword_wf, eword_sword. cbn [fst snd sw_type sw_user sw_hosts].
+  intros (Ht & Hu & Hh & He & Hl). split; [auto|]. intros _. split.
+  - intros x Hx. apply memb_In. auto.
+  - exists (rev (denote e)). split; [apply reg_names_render; auto|].
+    intros x. rewrite sem_targets_render by auto. symmetry. apply in_rev.
+Qed.
+
+Lemma eword_mean_of loaded ws : Forall (eword_ok loaded) ws ->
+  map (aword_of sem_targets) (map eword_sword ws) = map eword_mean ws.
+Proof.
+  induction 1 as [|[[t u] e] ws (_ & _ & _ & He & _) _ IH]; cbn [map]; auto. rewrite IH. f_equal.
+  unfold aword_of, eword_mean, eword_sword. cbn [fst snd sw_type sw_user sw_hosts] in *.
+  now rewrite sem_targets_render.
+Qed.
+
+(* THE assignment theorem: for every list of such words, every settings, every target list *)
+Theorem assign_exprs rank_list loaded st (ws : list eword) targets dt :
+  Forall (eword_ok loaded) ws -> default_type rank_list loaded st = Ok dt ->
+  assign rank_list loaded st (map eword_text ws) targets
+  = Ok (assigned (map eword_mean ws) dt (default_user st) targets).
+Proof.
+  intros Hok Hd. unfold assign, eword_text. rewrite <- map_map.
+  rewrite (assign_with_spec reg_names sem_targets rank_list loaded st (map eword_sword ws) targets dt).
+  - now rewrite (eword_mean_of loaded).
+  - apply Forall_map. revert Hok. apply Forall_impl. apply eword_word_ok.
+  - exact Hd.
+Qed.
+
+(* the code before the fix: right for words with at most one bracket pair ... *)
+Lemma eword_word_ok0 loaded w : eword_ok loaded w -> one_bracket (snd w) ->
+  word_ok reg_names0 sem_targets loaded (eword_sword w).
+Proof.
+  destruct w as [[t u] e]. unfold eword_ok, word_ok, sword_wf, eword_sword. cbn [fst snd sw_type sw_user sw_hosts].
+  intros (Ht & Hu & Hh & He & Hl) H1. split; [auto|]. intros _. split.
+  - intros x Hx. apply memb_In. auto.
+  - exists (rev (pass1s e)). split; [apply reg_names0_render; auto|].
+    intros x. rewrite sem_targets_render, pass1s_one_bracket by auto. symmetry. apply in_rev.
+Qed.
+
+Theorem assign0_partial rank_list loaded st (ws : list eword) targets dt :
+  Forall (eword_ok loaded) ws -> Forall (fun w => one_bracket (snd w)) ws ->
+  default_type rank_list loaded st = Ok dt ->
+  assign0 rank_list loaded st (map eword_text ws) targets
+  = Ok (assigned (map eword_mean ws) dt (default_user st) targets).
+Proof.
+  intros Hok H1 Hd. unfold assign0, eword_text. rewrite <- map_map.
+  rewrite (assign_with_spec reg_names0 sem_targets rank_list loaded st (map eword_sword ws) targets dt).
+  - now rewrite (eword_mean_of loaded).
+  - apply Forall_map. rewrite Forall_forall in *. intros w Hw. apply eword_word_ok0; auto.
+  - exact Hd.
+Qed.
+
+(* ... and wrong for two pairs: 'bob@foo[1-2]-[0-1]' leaves foo1-0 with the default user *)
+Definition w2_foo : bytes := [102;111;111].
+Definition w2_expr : expr :=
+  [(WBr2 w2_foo [mkrt 1 1 (Some (2, 1%nat))] [45] [mkrt 0 1 (Some (1, 1%nat))] [], [])].
+Definition w2_word : eword := (None, Some [98;111;98], w2_expr).
+Definition w2_st : rsettings := mkrs None None None [114;111;111;116].
+Definition w2_exec : bytes := [101;120;101;99].
+
+Lemma w2_ok : eword_ok [w2_exec] w2_word.
+Proof.
+  unfold eword_ok, w2_word. cbn [fst snd ofield_ok]. split; [exact I|]. split.
+  { split; intros H; cbn in H; intuition discriminate. }
+  split. { split; intros H; vm_compute in H; intuition discriminate. }
+  split; [|intros t H; discriminate].
+  cbn [expr_wf w2_expr word_wf]. repeat split; try (vm_compute; reflexivity); try discriminate.
+  all: try (unfold rs_wf; repeat split; try discriminate; try (vm_compute; lia);
+            repeat constructor; unfold rt_wf; cbn [t_lo t_w t_hi rt_hi]; repeat split; vm_compute; try reflexivity; try lia; try discriminate).
+  all: cbv [denote_word rs_nums rt_nums flat_map map first_pass_name rt_hi t_lo t_w t_hi count_up' N.to_nat];
+       repeat constructor; apply Nat.ltb_lt; vm_compute; reflexivity.
+Qed.
+
+Theorem assign0_refuted :
+  exists loaded ws targets st dt, Forall (eword_ok loaded) ws /\ default_type [w2_exec] loaded st = Ok dt /\
+    assign0 [w2_exec] loaded st (map eword_text ws) targets
+    <> Ok (assigned (map eword_mean ws) dt (default_user st) targets).
+Proof.
+  exists [w2_exec], [w2_word], [w2_foo ++ [49;45;48]], w2_st, w2_exec.
+  split; [constructor; [exact w2_ok|constructor]|]. split; [reflexivity|].
+  vm_compute. intros H. discriminate H.
 Qed.
